@@ -73,6 +73,28 @@ def strip_env(sd):
     return sd
 
 
+def valid_env(sd, rng, ctx, p=0.5, kinds=None):
+    """{variable: a valid non-empty value} for about a share p of the bound scalar fields (names shared by two fields are
+    left out: a value valid for one need not be valid for the other)."""
+    names = env_names(sd)
+    env = {}
+    for path, name in sorted(names.items()):
+        if list(names.values()).count(name) > 1:
+            continue
+        node = schema.node_at(sd, path)
+        if node is None or node["kind"] in ("list", "dict", "challenge", "include", "filename", "featureflag", "virtual", "method", "any", "bytes"):
+            continue
+        if kinds is not None and node["kind"] not in kinds:
+            continue
+        if rng.random() < p:
+            for _ in range(10):
+                v = values.gen_value(rng, node, "valid", ctx)
+                if isinstance(v, str) and v and "\x00" not in v and isinstance(model.norm(node, v, ctx), OK):
+                    env[name] = v
+                    break
+    return env
+
+
 class EnvScenario(StateScenario):
     name = "environment"
     max_ops = 24
